@@ -1,6 +1,7 @@
 package props
 
 import (
+	"encoding/json"
 	"context"
 	"fmt"
 	"sort"
@@ -30,6 +31,9 @@ type C17Case struct {
 	// OrphanMask: bit i set = revision i matches the selector but has no owner (left behind by an orphaning
 	// delete + re-create of the built-in set, not yet adopted): still a revision of the set
 	OrphanMask int `json:"orphan_mask,omitempty"`
+	// Collision: the built-in set's status.collisionCount (nil when 0 is drawn with HasCollision false)
+	HasCollision bool  `json:"has_collision,omitempty"`
+	Collision    int32 `json:"collision,omitempty"`
 	Unrelated  int   `json:"unrelated"` // revisions of somebody else
 	Pods       int   `json:"pods"`
 	Claims     int   `json:"claims"`
@@ -59,6 +63,10 @@ func genC17(rt *rapid.T) C17Case {
 		Partition: int32(rapid.IntRange(0, 2).Draw(rt, "partition")),
 		All:       thorough(),
 		Retries:   rapid.IntRange(1, 3).Draw(rt, "retries"),
+	}
+	if rapid.IntRange(0, 2).Draw(rt, "hasCollision") == 0 {
+		c.HasCollision = true
+		c.Collision = int32(rapid.IntRange(0, 3).Draw(rt, "collision"))
 	}
 	if rapid.IntRange(0, 2).Draw(rt, "orphanRevs") == 0 {
 		c.OrphanMask = rapid.IntRange(1, 31).Draw(rt, "orphanMask")
@@ -111,6 +119,10 @@ func buildC17(cs C17Case) *c17World {
 		},
 		Status: appsv1.StatefulSetStatus{Replicas: cs.Replicas, ReadyReplicas: cs.Replicas, CurrentRevision: "web-r0", UpdateRevision: "web-r0", ObservedGeneration: 1},
 	}
+	if cs.HasCollision {
+		cc := cs.Collision
+		sts.Status.CollisionCount = &cc
+	}
 	if cs.SelExpr {
 		sts.Spec.Selector.MatchExpressions = []metav1.LabelSelectorRequirement{{Key: "extra", Operator: metav1.LabelSelectorOpExists}}
 	}
@@ -151,7 +163,13 @@ func buildC17(cs C17Case) *c17World {
 		}
 		c.Put(pre)
 	}
-	w.want, _ = helper.FromBuiltinStatefulSet(stored)
+	// what the Advanced object must look like, computed by the harness itself (a JSON round trip into the Advanced
+	// type: the two types share their wire format), not by the conversion helper under test
+	w.want = &asv1.StatefulSet{}
+	if j, err := json.Marshal(stored); err == nil {
+		_ = json.Unmarshal(j, w.want)
+	}
+	w.want.APIVersion, w.want.Kind = "apps.pingcap.com/v1", "StatefulSet"
 	return w
 }
 
